@@ -132,9 +132,14 @@ func TestChild(t *testing.T) {
 // confirmed counts the hangs and process deaths confirmed so far.
 var confirmed int
 
+// confirmedHangs counts the hangs among them: confirming one takes minutes,
+// and one reported hang is enough.
+var confirmedHangs int
+
 // runBatch runs cases in child processes (address space limited to 6 GB,
 // 10 s watchdog per case) and records violations.  Suspected hangs and
-// deaths are confirmed by an isolated re-run with a 120 s limit.
+// deaths are confirmed by an isolated re-run with a 120 s limit; a hang whose
+// first half alone runs for seconds is counted as inconclusive (slow).
 func runBatch(rec *ev.Rec, cases []*hcase, reached func(c *hcase, result string) bool) {
 	if len(cases) == 0 {
 		return
@@ -158,20 +163,40 @@ func runBatch(rec *ev.Rec, cases []*hcase, reached func(c *hcase, result string)
 		rec.Class(c.Target)
 		msg := ""
 		switch {
-		case (o.Hung || o.Died) && confirmed >= 2:
+		case (o.Hung || o.Died) && confirmed >= 2, o.Hung && confirmedHangs >= 1:
 			// enough hangs / deaths are confirmed and reported already; keep
 			// the run time bounded
-			rec.Excluded("suspected hang or death not re-run (two are confirmed already)")
+			rec.Excluded("suspected hang or death not re-run (a hang or two deaths are confirmed already)")
 			continue
 		case o.Hung || o.Died:
 			// confirm alone
-			again := isolate.Run([][]byte{raws[i]}, 30*time.Second, 6144)[0]
-			if again.Hung || again.Died {
+			again := isolate.Run([][]byte{raws[i]}, 120*time.Second, 6144)[0]
+			slow := false
+			if again.Hung && len(c.Data) >= 2 {
+				// Slow or endless?  The property demands termination, not
+				// speed.  If the first half of the same bytes already takes
+				// seconds, the run time grows with the input and the full
+				// input is reported as inconclusive (counted), not as a hang;
+				// an endless loop shows as a half that is quick or hangs too.
+				half := *c
+				half.Data = c.Data[:len(c.Data)/2]
+				hraw, _ := json.Marshal(&half)
+				t0 := time.Now()
+				h := isolate.Run([][]byte{hraw}, 120*time.Second, 6144)[0]
+				slow = h.Done && !h.Hung && !h.Died && time.Since(t0) >= 5*time.Second
+			}
+			if (again.Hung && !slow) || again.Died {
 				confirmed++
 			}
+			if again.Hung && !slow {
+				confirmedHangs++
+			}
 			switch {
+			case again.Hung && slow:
+				rec.Excluded("inconclusive: no result after 120 s alone, but the first half of the input takes more than 5 s itself (slow, run time growing with the input)")
+				continue
 			case again.Hung:
-				msg = fmt.Sprintf("%s: the call does not terminate (no result after 30 s in an isolated re-run)", c.Target)
+				msg = fmt.Sprintf("%s: the call does not terminate (no result after 120 s in an isolated re-run; the first half of the input does not account for it)", c.Target)
 			case again.Died:
 				msg = fmt.Sprintf("%s: the process aborts:\n%s", c.Target, again.Details)
 			case strings.HasPrefix(again.Result, "PANIC"):
@@ -238,7 +263,7 @@ func TestP1Tuples(t *testing.T) {
 		}
 	}
 	maxArity := ev.Total(2, 3)
-	rec.Rule(fmt.Sprintf("interpreter with MaxOps = %d: every name in systemdict (%d) and every CIDInit operator (%d, inside begincmap) applied to every operand tuple of arity 0..%d from a hostile pool of %d values (boundary and huge integers, reals, strings incl. 65536 bytes, empty/nested/self-referential arrays, a procedure whose 12 slots all hold itself, dictionaries incl. systemdict and errordict, the file object, mark, operator objects, StandardEncoding). Each program runs in a child process under a 6 GB address-space limit and a 10 s watchdog (confirmed alone with 30 s; to bound the run time a batch is given up after 3 hangs or deaths and at most two are confirmed per run). Plus CMap block choreography: every sequence of up to %d events over begincmap, endcmap and the begin/end operators (with a valid entry) of every pair of the seven block kinds, i.e. all out-of-order interleavings; and a well-formed block of each kind with each operand of its entry replaced by each value of the hostile pool. Oracle: the call returns a result or an error - no panic, no process abort, no hang. Non-trivial: every tuple (the operator is reached by construction); distinct by program text.", interpMaxOps, len(sys), len(cid), maxArity, len(pool), ev.Total(4, 5)))
+	rec.Rule(fmt.Sprintf("interpreter with MaxOps = %d: every name in systemdict (%d) and every CIDInit operator (%d, inside begincmap) applied to every operand tuple of arity 0..%d from a hostile pool of %d values (boundary and huge integers, reals, strings incl. 65536 bytes, empty/nested/self-referential arrays, a procedure whose 12 slots all hold itself, dictionaries incl. systemdict and errordict, the file object, mark, operator objects, StandardEncoding). Each program runs in a child process under a 6 GB address-space limit and a 10 s watchdog (confirmed alone with 120 s, and a cut-off run whose first half alone takes seconds is counted as slow, not as a hang; to bound the run time a batch is given up after 3 hangs or deaths and at most one hang and two deaths are confirmed per run). Plus CMap block choreography: every sequence of up to %d events over begincmap, endcmap and the begin/end operators (with a valid entry) of every pair of the seven block kinds, i.e. all out-of-order interleavings; and a well-formed block of each kind with each operand of its entry replaced by each value of the hostile pool. Oracle: the call returns a result or an error - no panic, no process abort, no hang. Non-trivial: every tuple (the operator is reached by construction); distinct by program text.", interpMaxOps, len(sys), len(cid), maxArity, len(pool), ev.Total(4, 5)))
 	var cases []*hcase
 	k := 0
 	addOps := func(ops []string, prefix string) {
